@@ -1010,6 +1010,46 @@ def closure_of(prog, owners):
     return out
 
 
+def nearest_roots(prog, owners):
+    """{q: Func} of the entry points (external linkage or address taken) nearest to `owners`: the owners themselves
+    where they are entry points, else their direct callers, transitively.  An entry point is analysed on its own
+    (it can be called from outside); what calls it sees it through its contract."""
+    rts = {r.q for r in roles.roots(prog)}
+    out, seen, work = {}, set(), list(owners)
+
+    def dispatchers(x):
+        """functions that call x through a constant table of function pointers or through a local that holds
+        function addresses (what TableInliner enters): x's address is taken, but these are its callers"""
+        res = []
+        for c in prog.all_funcs():
+            for e in c.events():
+                if e['ev'] == 'call' and 'fnexpr' in e:
+                    tc = table_call(prog, prog.unit_of(c), e) or local_pointer_call(prog, c, e)
+                    if tc and any(t.q == x.q for t in tc[1]):
+                        res.append(c)
+                        break
+        return res
+    while work:
+        x = work.pop()
+        if x.q in seen:
+            continue
+        seen.add(x.q)
+        if x.q in rts:
+            via = dispatchers(x) if x.static else []
+            if via:
+                work.extend(via)
+            else:
+                out[x.q] = x
+            continue
+        for (c, e) in prog.callers_of(x.name):
+            u = prog.unit_of(c)
+            t = prog.resolve(u, e['callee']) if u else None
+            if t is not None and t.q != x.q:
+                continue
+            work.append(c)
+    return out
+
+
 def root_contexts(prog, site_pred, what, anchor=None):
     """[(root Func, inlined+normalised root, [site events])] for every entry point (external linkage or
     address taken) from which an event satisfying site_pred is reachable by direct calls.  anchor: the
@@ -1251,3 +1291,509 @@ def touches_event_handler(e):
     if is_event_site(e):
         return True
     return e['ev'] == 'load' and last_member(strip_load(e['e'])) == ('iv_event', 'handler')
+
+
+# --------------------------------------------------------------------------
+# R-C08e: path-sensitive evaluation of the registration count and of the wake-up transport's set-up
+# --------------------------------------------------------------------------
+
+RAW_SETUP = 'iv_event_raw_register'          # exported raw-event API
+RAW_TEARDOWN = 'iv_event_raw_unregister'
+SLOT_SETUP = 'event_rx_on'                   # poll-method table slots
+SLOT_TEARDOWN = 'event_rx_off'
+MT_PREDICATES = ('is_mt_app', 'pthreads_available')      # the core's names (PURE_CALLS) of "this process has threads"
+_NEGOP = {'==': '!=', '!=': '==', '<': '>=', '>=': '<', '>': '<=', '<=': '>'}
+_SWAPOP = {'==': '==', '!=': '!=', '<': '>', '>': '<', '<=': '>=', '>=': '<='}
+_PYOP = {'==': lambda a, b: a == b, '!=': lambda a, b: a != b, '<': lambda a, b: a < b, '>': lambda a, b: a > b,
+         '<=': lambda a, b: a <= b, '>=': lambda a, b: a >= b}
+_INT_TYPES = ('int', 'unsigned int', 'long', 'unsigned long', 'short', 'unsigned short', 'unsigned', 'char', 'unsigned char',
+              'signed char', 'long long', 'unsigned long long', 'size_t', 'ssize_t', 'uint32_t', 'int32_t', 'uint64_t', 'int64_t',
+              'uint16_t', 'int16_t', 'uint8_t', 'int8_t', '_Bool', 'bool')
+
+
+def transport_site(x):
+    """For a call (event or expression node): ('setup' | 'teardown', 'raw' | 'slot') when it sets up / tears down the
+    wake-up transport of a thread -- the raw-event API applied to the state's kick raw event, or the poll method's
+    event_rx_on / event_rx_off slot -- else None."""
+    if not isinstance(x, dict) or (x.get('ev') != 'call' and x.get('k') != 'call'):
+        return None
+    nm = x.get('callee')
+    if nm in (RAW_SETUP, RAW_TEARDOWN):
+        args = x.get('args') or []
+        if args and last_member(member_of(args[0])) == K.KICK:
+            return ('setup' if nm == RAW_SETUP else 'teardown', 'raw')
+        return None
+    if 'fnexpr' in x:
+        lm = last_member(x['fnexpr'])
+        if lm and lm[0] == 'iv_fd_poll_method' and lm[1] in (SLOT_SETUP, SLOT_TEARDOWN):
+            return ('setup' if lm[1] == SLOT_SETUP else 'teardown', 'slot')
+    return None
+
+
+def _global_key(x):
+    """env key of a file-scope scalar: a global variable or a member selected with `.` from a file-scope aggregate"""
+    m = strip(x)
+    y = m
+    while isinstance(y, dict) and y.get('k') == 'member' and not y.get('arrow'):
+        y = strip_load(y['base'])
+    if isinstance(y, dict) and y.get('k') == 'var' and y.get('vk') in ('global', 'staticlocal') and m.get('k') in ('var', 'member'):
+        return ('g', canon(m))
+    return None
+
+
+def counter_fields(g):
+    """(record, field) of the integer members of run-time records that g stores to: the candidates for a count"""
+    out = set()
+    for e in g.events():
+        if e['ev'] != 'store':
+            continue
+        l = strip_load(e['lhs'])
+        if isinstance(l, dict) and l.get('k') == 'member' and l.get('record') and _global_key(l) is None \
+                and (l.get('type') or '').replace('volatile ', '').replace('const ', '').strip() in _INT_TYPES:
+            out.add((l['record'], l['field']))
+    return out
+
+
+class CountStates:
+    """Disjunctive forward evaluation of an inlined entry point.  One state per class of paths:
+
+      fields   value of every tracked integer member F relative to its value F0 on entry: ('o', F, k) = F0 + k, or a constant
+      f0       what the branches taken say about F0: ('==', m) or ('!=', {m, ...})  (counts are taken to be non-negative)
+      env      scalar locals / file-scope flags: constants, 'nz', the symbolic values below, comparisons of them
+      att      outcome of the set-up attempts made on the path, per transport: 'pending' (result not examined),
+               'ok' (an edge says the result is 0 / not negative), 'failed' (an edge excludes 0); '!last': the
+               transport attempted last (the one the code settled for, or gave up on)
+      mt       what the path learned from the "application is multi-threaded" predicate (None / True / False)
+      ret      (location, class of the value) of the entry point's own return statement, once passed
+
+    Symbolic values: ('o', F, k); ('r', transport) = result of the last set-up attempt; ('mt',); ('cmp', op, sym, n) =
+    truth value of a comparison.  Everything is resolved against the state when it is read, so a result kept in a
+    local, returned through a helper, negated, or compared later refines the same fact."""
+
+    MAXSTATES = 1500
+
+    def __init__(self, g, tracked):
+        self.g = g
+        self.tracked = set(tracked)
+        init = frozenset([self._freeze({}, {}, {}, {}, None, None)])
+        _, self.ev_in = forward(g, init, self._transfer, lambda a, b: a | b, edge=self._edge)
+
+    # ---- representation
+    @staticmethod
+    def _freeze(fields, env, f0, att, mt, ret):
+        return (frozenset(fields.items()), frozenset(env.items()), frozenset(f0.items()), frozenset(att.items()), mt, ret)
+
+    @staticmethod
+    def thaw(st):
+        return {'fields': dict(st[0]), 'env': dict(st[1]), 'f0': dict(st[2]), 'att': dict(st[3]), 'mt': st[4], 'ret': st[5]}
+
+    def _refreeze(self, S):
+        return self._freeze(S['fields'], S['env'], S['f0'], S['att'], S['mt'], S['ret'])
+
+    def at(self, e):
+        return [self.thaw(s) for s in self.ev_in.get((e['_b'], e['_i']), ())]
+
+    @staticmethod
+    def attempted(S):
+        return {k: v for k, v in S['att'].items() if k != '!last'}
+
+    @staticmethod
+    def transport_up(S):
+        """the set-up the path attempted last succeeded"""
+        return S['att'].get(S['att'].get('!last')) == 'ok'
+
+    def at_exit(self):
+        return [self.thaw(s) for s in self.ev_in.get((self.g.exit, 0), ())]
+
+    # ---- values
+    def _resolve(self, v, S):
+        if isinstance(v, tuple):
+            if v[0] == 'o':
+                c = S['f0'].get(v[1])
+                if c and c[0] == '==':
+                    return ('c', c[1] + v[2])
+            elif v[0] == 'r':
+                a = S['att'].get(v[1])
+                if a == 'ok':
+                    return ('c', 0)
+                if a == 'failed':
+                    return 'nz'
+            elif v[0] == 'mt':
+                if S['mt'] is not None:
+                    return 'nz' if S['mt'] else ('c', 0)
+            elif v[0] == 'cmp':
+                t = self.truth(v, S)
+                if t is not None:
+                    return ('c', int(t))
+        return v
+
+    def field_value(self, F, S):
+        return self._resolve(S['fields'].get(F, ('o', F, 0)), S)
+
+    def flag_implies(self, S, path, op, n):
+        """the file-scope scalar spelled `path` satisfies (path op n) on the paths of S"""
+        v = self._resolve(S['env'].get(('g', path), '?'), S)
+        if isinstance(v, tuple) and v[0] == 'c':
+            return _PYOP[op](v[1], n)
+        return v == 'nz' and op == '!=' and n == 0
+
+    def delta(self, F, S):
+        """net change of F on the paths of S, or None when unknown"""
+        v = S['fields'].get(F, ('o', F, 0))
+        if isinstance(v, tuple) and v[0] == 'o' and v[1] == F:
+            return v[2]
+        c = S['f0'].get(F)
+        if isinstance(v, tuple) and v[0] == 'c' and c and c[0] == '==':
+            return v[1] - c[1]
+        return None
+
+    @staticmethod
+    def _shift(v, d):
+        if isinstance(v, tuple) and v[0] == 'c':
+            return ('c', v[1] + d) if abs(v[1] + d) <= 4096 else '?'
+        if isinstance(v, tuple) and v[0] == 'o':
+            return ('o', v[1], v[2] + d) if abs(v[2] + d) <= 6 else '?'
+        return '?'
+
+    def truth(self, v, S):
+        if isinstance(v, tuple):
+            if v[0] == 'c':
+                return v[1] != 0
+            if v[0] == 'cmp':
+                op, s, n = v[1], self._resolve(v[2], S), v[3]
+                if isinstance(s, tuple) and s[0] == 'c':
+                    return _PYOP[op](s[1], n)
+                if s == 'nz' and n == 0 and op in ('==', '!='):
+                    return op == '!='
+                if isinstance(s, tuple) and s[0] == 'o':
+                    c = S['f0'].get(s[1])
+                    if c and c[0] == '!=' and (n - s[2]) in c[1] and op in ('==', '!='):
+                        return op == '!='
+                return None
+            if v[0] == 'o':
+                c = S['f0'].get(v[1])
+                if c and c[0] == '!=' and -v[2] in c[1]:
+                    return True
+            return None
+        if v == 'nz':
+            return True
+        return None
+
+    def _negate(self, v):
+        if isinstance(v, tuple):
+            if v[0] == 'c':
+                return ('c', int(v[1] == 0))
+            if v[0] == 'cmp':
+                return ('cmp', _NEGOP[v[1]], v[2], v[3])
+            return ('cmp', '==', v, 0)
+        if v == 'nz':
+            return ('c', 0)
+        return '?'
+
+    def _compare(self, op, a, b):
+        ca, cb = isinstance(a, tuple) and a[0] == 'c', isinstance(b, tuple) and b[0] == 'c'
+        if ca and cb:
+            return ('c', int(_PYOP[op](a[1], b[1])))
+        if cb and isinstance(a, tuple) and a[0] in ('o', 'r', 'mt'):
+            return ('cmp', op, a, b[1])
+        if ca and isinstance(b, tuple) and b[0] in ('o', 'r', 'mt'):
+            return ('cmp', _SWAPOP[op], b, a[1])
+        if cb and b[1] == 0 and op in ('==', '!='):
+            if a == 'nz':
+                return ('c', int(op == '!='))
+            if isinstance(a, tuple) and a[0] == 'cmp':
+                return a if op == '!=' else self._negate(a)
+        if ca and a[1] == 0 and op in ('==', '!='):
+            return self._compare(op, b, a)
+        return '?'
+
+    def value(self, x, S):
+        """abstract value of expression x in state S (resolved)"""
+        if not isinstance(x, dict):
+            return '?'
+        k = x.get('k')
+        if k in ('load', 'cast', 'stmtexpr', 'paren') and 'e' in x:
+            return self.value(x['e'], S)
+        if k == 'int':
+            return ('c', x['v'])
+        if k == 'null':
+            return ('c', 0)
+        if k == 'var':
+            if x.get('vk') == 'func':
+                return 'nz'
+            key = ('g' if x.get('vk') in ('global', 'staticlocal') else 'v', x['name'])
+            return self._resolve(S['env'].get(key, '?'), S)
+        if k == 'member':
+            F = (x.get('record'), x['field'])
+            gk = _global_key(x)
+            if gk is not None:
+                return self._resolve(S['env'].get(gk, '?'), S)
+            if F in self.tracked:
+                return self.field_value(F, S)
+            return '?'
+        if k == 'incdec':
+            v = self.value(x['e'], S)          # the store event precedes the use of the expression's value
+            if x.get('prefix'):
+                return v
+            return self._resolve(self._shift(v, -1 if x['op'] == '++' else 1), S)
+        if k == 'assign':
+            return self.value(x['l'], S)
+        if k == 'un':
+            v = self.value(x['e'], S)
+            if x['op'] == '!':
+                return self._resolve(self._negate(v), S)
+            if x['op'] == '-' and isinstance(v, tuple) and v[0] == 'c':
+                return ('c', -v[1])
+            if x['op'] == '+':
+                return v
+            return '?'
+        if k == 'bin':
+            op = x['op']
+            if op in ('&&', '||'):
+                a, b = self.truth(self.value(x['l'], S), S), self.truth(self.value(x['r'], S), S)
+                if op == '&&':
+                    if a is False or b is False:
+                        return ('c', 0)
+                    return ('c', 1) if a and b else '?'
+                if a or b:
+                    return ('c', 1)
+                return ('c', 0) if a is False and b is False else '?'
+            a, b = self.value(x['l'], S), self.value(x['r'], S)
+            if op in _PYOP:
+                return self._resolve(self._compare(op, a, b), S)
+            if op in ('+', '-'):
+                if isinstance(b, tuple) and b[0] == 'c':
+                    return self._resolve(self._shift(a, b[1] if op == '+' else -b[1]), S)
+                if op == '+' and isinstance(a, tuple) and a[0] == 'c':
+                    return self._resolve(self._shift(b, a[1]), S)
+            return '?'
+        if k == 'cond':
+            t = self.truth(self.value(x['c'], S), S)
+            if t is not None:
+                return self.value(x['a'] if t else x['b'], S)
+            a, b = self.value(x['a'], S), self.value(x['b'], S)
+            return a if a == b else '?'
+        if k == 'call':
+            ts = transport_site(x)
+            if ts and ts[0] == 'setup':
+                return self._resolve(('r', ts[1]), S)
+            if x.get('callee') in MT_PREDICATES:
+                return self._resolve(('mt',), S)
+            # a call of a helper that was inlined, left inside a larger expression (`v = helper(x) ? A : B`):
+            # its value is what the inlined body returned
+            return self._resolve(S['env'].get(('call', x.get('loc')), '?'), S)
+        if k == 'addr':
+            return 'nz'
+        return '?'
+
+    # ---- refinement
+    def _atom(self, s, op, n, S):
+        """the path continues only where (s op n); False when that contradicts what the state knows"""
+        if s[0] == 'o':
+            F, m = s[1], n - s[2]
+            cur = S['f0'].get(F)
+            if cur and cur[0] == '==':
+                return _PYOP[op](cur[1], m)
+            neq = cur[1] if cur else frozenset()
+            # (the value tested, F0 + k, is a count: not negative)
+            if op == '==' or (op == '<' and n == 1) or (op == '<=' and n == 0):
+                m = m if op == '==' else -s[2]
+                if m in neq:
+                    return False
+                S['f0'][F] = ('==', m)
+            elif op == '!=' or (op == '>' and n == 0) or (op == '>=' and n == 1):
+                S['f0'][F] = ('!=', neq | {m if op == '!=' else -s[2]})
+            return True
+        excludes0 = not _PYOP[op](0, n)
+        if s[0] == 'r':
+            if S['att'].get(s[1]) == 'pending':
+                if excludes0:
+                    S['att'][s[1]] = 'failed'
+                elif (op == '==' and n == 0) or (op == '>=' and n == 0) or (op == '>' and n == -1):
+                    S['att'][s[1]] = 'ok'         # failure is reported as a non-zero (negative) value
+            return True
+        if s[0] == 'mt':
+            if excludes0:
+                S['mt'] = True
+            elif op == '==' and n == 0:
+                S['mt'] = False
+            return True
+        return True
+
+    def _assume_value(self, v, t, S):
+        tv = self.truth(v, S)
+        if tv is not None:
+            return tv == t
+        if isinstance(v, tuple) and v[0] == 'cmp':
+            return self._atom(v[2], v[1] if t else _NEGOP[v[1]], v[3], S)
+        if isinstance(v, tuple) and v[0] in ('o', 'r', 'mt'):
+            return self._atom(v, '!=' if t else '==', 0, S)
+        return True
+
+    def _env_key(self, x):
+        y = strip(x)
+        if isinstance(y, dict) and y.get('k') == 'var' and y.get('vk') != 'func':
+            return ('g' if y.get('vk') in ('global', 'staticlocal') else 'v', y['name'])
+        if isinstance(y, dict) and y.get('k') == 'member':
+            return _global_key(y)
+        return None
+
+    def assume(self, c, t, S):
+        """refine S by `condition c evaluates to t`; False when infeasible"""
+        y = strip(c)
+        if not isinstance(y, dict):
+            return True
+        if y.get('k') == 'un' and y.get('op') == '!':
+            return self.assume(y['e'], not t, S)
+        if y.get('k') == 'bin' and y['op'] in ('&&', '||'):
+            conj = y['op'] == '&&'
+            if t == conj:          # both operands have the value t
+                return self.assume(y['l'], t, S) and self.assume(y['r'], t, S)
+            a, b = self.truth(self.value(y['l'], S), S), self.truth(self.value(y['r'], S), S)
+            if a is not None and a == conj:
+                return self.assume(y['r'], t, S)
+            if b is not None and b == conj:
+                return self.assume(y['l'], t, S)
+            return True
+        if y.get('k') == 'bin' and y['op'] in _PYOP:
+            a, b = self.value(y['l'], S), self.value(y['r'], S)
+            op = y['op'] if t else _NEGOP[y['op']]
+            for (u, ux, w, o) in ((a, y['l'], b, op), (b, y['r'], a, _SWAPOP[op])):
+                key = self._env_key(ux)
+                if u in ('?', 'nz') and key is not None and isinstance(w, tuple) and w[0] == 'c':
+                    if u == 'nz':
+                        if o == '==' and w[1] == 0:
+                            return False
+                        if o == '==':
+                            S['env'][key] = w
+                    elif o == '==':
+                        S['env'][key] = w
+                    elif not _PYOP[o](0, w[1]):
+                        S['env'][key] = 'nz'
+                    return True
+            return self._assume_value(self._compare(y['op'], a, b), t, S)
+        v = self.value(y, S)
+        key = self._env_key(y)
+        if v == '?' and key is not None:
+            S['env'][key] = 'nz' if t else ('c', 0)
+            return True
+        return self._assume_value(v, t, S)
+
+    # ---- dataflow
+    def _store_key(self, lhs):
+        l = strip_load(lhs)
+        while isinstance(l, dict) and l.get('k') in ('cast', 'paren') and 'e' in l:
+            l = strip_load(l['e'])
+        if not isinstance(l, dict):
+            return None
+        if l.get('k') == 'var':
+            return ('g' if l.get('vk') in ('global', 'staticlocal') else 'v', l['name'])
+        if l.get('k') == 'member':
+            gk = _global_key(l)
+            if gk is not None:
+                return gk
+            F = (l.get('record'), l['field'])
+            if F in self.tracked:
+                return ('f', F)
+        return None
+
+    def _tr_one(self, e, S):
+        ev = e['ev']
+        if ev == 'store':
+            key = self._store_key(e['lhs'])
+            if key is None:
+                return S
+            if key[0] == 'f':
+                cur = S['fields'].get(key[1], ('o', key[1], 0))
+            else:
+                cur = S['env'].get(key, '?')
+            op = e.get('op')
+            if op == '=' and 'rhs' in e:
+                v = self.value(e['rhs'], S)
+            elif op in ('++', '--'):
+                v = self._shift(cur, 1 if op == '++' else -1)
+            elif op in ('+=', '-=') and 'rhs' in e:
+                r = self.value(e['rhs'], S)
+                v = self._shift(cur, r[1] if op == '+=' else -r[1]) if isinstance(r, tuple) and r[0] == 'c' else '?'
+            else:
+                v = '?'
+            if key[0] == 'f':
+                S['fields'][key[1]] = v
+            elif v == '?':
+                S['env'].pop(key, None)
+            else:
+                S['env'][key] = v
+            return S
+        if ev == 'decl':
+            S['env'].pop(('v', e['name']), None)
+            return S
+        if ev == 'call':
+            ts = transport_site(e)
+            if ts and ts[0] == 'setup':
+                S['att'][ts[1]] = 'pending'
+                S['att']['!last'] = ts[1]
+            for a in e.get('args', []):
+                a = strip(a)
+                if isinstance(a, dict) and a.get('k') == 'addr' and var_name(a['e']) is not None:
+                    S['env'].pop(('v', var_name(a['e'])), None)
+            if 'fnexpr' in e or e.get('callee') not in PURE_CALLS:
+                # code that is not in view may change file-scope flags
+                for k_ in [k_ for k_ in S['env'] if k_[0] == 'g']:
+                    del S['env'][k_]
+            return S
+        if ev == 'leave' and e.get('retvar'):
+            v = S['env'].get(('v', e['retvar']), '?')
+            if v == '?':
+                S['env'].pop(('call', e.get('loc')), None)
+            else:
+                S['env'][('call', e.get('loc'))] = v
+            return S
+        if ev == 'ret' and not e.get('chain'):
+            cls = '?'
+            if 'value' in e:
+                t = self.truth(self.value(e['value'], S), S)
+                cls = '?' if t is None else ('nonzero' if t else 'zero')
+            else:
+                cls = 'void'
+            S['ret'] = (e['loc'], cls)
+            return S
+        return S
+
+    def _transfer(self, e, states):
+        out = set()
+        for st in states:
+            out.add(self._refreeze(self._tr_one(e, self.thaw(st))))
+        if len(out) > self.MAXSTATES:
+            raise AnalysisBroken('state explosion in the count/transport evaluation of %s' % self.g.name)
+        return frozenset(out)
+
+    def _edge(self, blk, si, states):
+        t = blk.term
+        if not t or len(blk.succ) < 2 or t.get('cond') is None or t.get('cls') == 'MethodDispatch':
+            return states
+        out = set()
+        if t.get('cls') == 'SwitchStmt':
+            cases = t.get('cases') or []
+            if si >= len(cases) or len(cases) != len(blk.succ):
+                return states
+            me = cases[si]
+            ints = [cv for cv in cases if isinstance(cv, int)]
+            for st in states:
+                S = self.thaw(st)
+                sel = {'k': 'bin', 'op': '==', 'l': t['cond'], 'r': None}
+                ok = True
+                if isinstance(me, int):
+                    ok = self.assume(dict(sel, r={'k': 'int', 'v': me}), True, S)
+                elif me == 'default':
+                    for cv in ints:
+                        ok = ok and self.assume(dict(sel, r={'k': 'int', 'v': cv}), False, S)
+                if ok:
+                    out.add(self._refreeze(S))
+            return frozenset(out) if out else None
+        if len(blk.succ) != 2:
+            return states
+        for st in states:
+            S = self.thaw(st)
+            if self.assume(t['cond'], si == 0, S):
+                out.add(self._refreeze(S))
+        return frozenset(out) if out else None
